@@ -264,7 +264,14 @@ def check_frame(ctx, contract):
         elif kind == "write":
             obj, attr = ev[1], ev[2]
             if contract.modifies is not None and obj is self_obj and attr not in contract.modifies:
-                ctx.fail("frame/self.%s" % attr, "field %s written but not in modifies %s" % (attr, sorted(contract.modifies)))
+                known = getattr(obj, "assumed_fields", None)
+                if known is not None and attr not in known:
+                    # state the representation invariant does not mention (e.g. a memo field):
+                    # whether writing it is harmless needs an invariant for it -- undecided
+                    ctx.fail("frame/self.%s" % attr, "field %s, which the assumed representation invariant does not cover, is written" % attr,
+                             status="unknown")
+                else:
+                    ctx.fail("frame/self.%s" % attr, "field %s written but not in modifies %s" % (attr, sorted(contract.modifies)))
             elif obj is not self_obj and not getattr(obj, "fresh", False) and obj in ctx.data.get("foreign", ()):
                 ctx.fail("frame/other.%s" % attr, "field %s of another object written" % attr)
         elif kind == "map-write":
